@@ -69,11 +69,16 @@ Theorem group_keeps_records : forall f x t, Forall mergeable x ->
 Proof. intros f x t Hm. unfold group. rewrite tups_group_go by exact Hm. cbn. tauto. Qed.
 
 (* ---- consequence: surplus records after the final SOA of an AXFR, in the same message ---- *)
-Lemma loopn_okrec : forall g x u rdt p tz ser s0, parse_ok_glue g -> Forall okrec x ->
+Lemma loopn_okrec : forall g x u rdt p tz ser s0, parse_ok_glue g -> Forall okrec x -> quiet tz ->
   loopn (ast u rdt p tz ser s0) (g x) = (ast u rdt p (addrs tz (g (erase x))) ser s0, None).
 Proof.
-  intros g x u rdt p tz ser s0 ((_ & G2 & _) & _ & G4) Hx.
-  apply (loopn_erase _ _ _ _ _ _ _ _ (G4 x) (G2 _ (erase_plain x Hx))).
+  intros g x u rdt p tz ser s0 ((_ & G2 & _) & _ & G4) Hx Hq.
+  apply (loopn_erase _ _ _ _ _ _ _ _ (G4 x) (G2 _ (erase_plain x Hx)) Hq).
+Qed.
+
+Lemma quiet_okrec : forall g x tz, parse_ok_glue g -> Forall okrec x -> quiet tz -> quiet (addrs tz (g (erase x))).
+Proof.
+  intros g x tz ((_ & G2 & _) & _ & _) Hx Hq. apply quiet_addrs; [apply G2, erase_plain, Hx|exact Hq].
 Qed.
 
 Lemma step_final_mid : forall u rdt p tz ser v,
@@ -100,13 +105,13 @@ Qed.
 Lemma loop_surplus : forall g c2 y x2 u rdt p tz ser v,
   parse_ok_glue g ->
   (forall x1 r x2, r_type r = tSOA -> g (x1 ++ r :: x2) = g x1 ++ single r :: map single x2) ->
-  Forall okrec c2 ->
+  Forall okrec c2 -> quiet tz ->
   loop (ast u rdt p tz ser (single (soa_rr v))) (g (c2 ++ soa_rr v :: y :: x2)) =
   (ast u rdt p (addrs tz (g (erase c2))) ser (single (soa_rr v)), Some eAfterFinal).
 Proof.
-  intros g c2 y x2 u rdt p tz ser v Hg Hsplit Hc2.
+  intros g c2 y x2 u rdt p tz ser v Hg Hsplit Hc2 Hq.
   rewrite (Hsplit c2 (soa_rr v) (y :: x2) eq_refl). cbn [map].
-  apply (loop_app_error_mid _ _ _ _ _ _ _ _ (loopn_okrec g c2 u rdt p tz ser _ Hg Hc2)).
+  apply (loop_app_error_mid _ _ _ _ _ _ _ _ (loopn_okrec g c2 u rdt p tz ser _ Hg Hc2 Hq)).
   apply step_final_mid.
 Qed.
 
@@ -120,26 +125,26 @@ Lemma cont_full_surplus : forall wsA g a c2 y x2 wl ws3 rdt p tz ser v,
   (forall x1 r x2, r_type r = tSOA -> g (x1 ++ r :: x2) = g x1 ++ single r :: map single x2) ->
   Forall (header_ok rdt) wsA -> header_ok rdt wl ->
   Forall okrec (a ++ concat (map w_records wsA)) -> Forall okrec c2 ->
-  w_records wl = c2 ++ soa_rr v :: y :: x2 ->
+  w_records wl = c2 ++ soa_rr v :: y :: x2 -> quiet tz ->
   exists n, cont false (loop (ast false rdt p tz ser (single (soa_rr v))) (g a)) (wsA ++ wl :: ws3)
             = (Error eAfterFinal p, n).
 Proof.
-  induction wsA as [|w wsA IH]; intros g a c2 y x2 wl ws3 rdt p tz ser v Hg Hsp Hh Hwl Ha Hc2 Hr.
+  induction wsA as [|w wsA IH]; intros g a c2 y x2 wl ws3 rdt p tz ser v Hg Hsp Hh Hwl Ha Hc2 Hr Hq.
   - cbn [map concat] in Ha. rewrite app_nil_r in Ha.
-    rewrite (loop_loopn _ _ _ (loopn_okrec g a false rdt p tz ser _ Hg Ha)).
+    rewrite (loop_loopn _ _ _ (loopn_okrec g a false rdt p tz ser _ Hg Ha Hq)).
     cbn [cont app]. unfold ast at 1. cbn [done].
     rewrite drive_cons by reflexivity. unfold from_wire.
     rewrite process_running; [|apply running_ast|apply Hwl|apply Hwl]. cbn [m_answer].
-    rewrite Hr, (loop_surplus (group false) c2 y x2 false rdt p _ ser v parse_group_ok_glue (group_after_soa false) Hc2).
+    rewrite Hr, (loop_surplus (group false) c2 y x2 false rdt p _ ser v parse_group_ok_glue (group_after_soa false) Hc2 (quiet_okrec _ _ _ Hg Ha Hq)).
     cbn [cont pub ast]. eauto.
   - cbn [map concat] in Ha. apply Forall_app in Ha. destruct Ha as [Ha Hrest].
-    rewrite (loop_loopn _ _ _ (loopn_okrec g a false rdt p tz ser _ Hg Ha)).
+    rewrite (loop_loopn _ _ _ (loopn_okrec g a false rdt p tz ser _ Hg Ha Hq)).
     cbn [cont app]. unfold ast at 1. cbn [done].
     inversion Hh as [|? ? Hw Hws]; subst.
     rewrite drive_cons by reflexivity. unfold from_wire.
     rewrite process_running; [|apply running_ast|apply Hw|apply Hw]. cbn [m_answer].
     destruct (IH (group false) (w_records w) c2 y x2 wl ws3 rdt p (addrs tz (g (erase a))) ser v
-                parse_group_ok_glue (group_after_soa false) Hws Hwl Hrest Hc2 Hr) as [n Hn].
+                parse_group_ok_glue (group_after_soa false) Hws Hwl Hrest Hc2 Hr (quiet_okrec _ _ _ Hg Ha Hq)) as [n Hn].
     rewrite Hn. eauto.
 Qed.
 
@@ -158,7 +163,7 @@ Proof.
   destruct wsA as [|w0 wsA].
   - cbn [map concat app] in *. subst c2. cbn [app] in Hr. rewrite drive_cons by reflexivity.
     rewrite (first_message_axfr z0 ser wl (soa_rr v) _ Hwl Hr) by (split; reflexivity).
-    rewrite (loop_surplus (map single) B y x2 false tAXFR z0 [] (match ser with Some sv => sv | None => 0 end) v parse_single_ok_glue split_single HB).
+    rewrite (loop_surplus (map single) B y x2 false tAXFR z0 [] (match ser with Some sv => sv | None => 0 end) v parse_single_ok_glue split_single HB quiet_nil).
     cbn [cont pub ast]. eauto.
   - cbn [map concat] in Hcat. destruct (w_records w0) as [|r0 a] eqn:Hr0; [congruence|].
     cbn [app] in Hcat. inversion Hcat as [[E0 Hcat']]. subst r0.
@@ -167,6 +172,6 @@ Proof.
     rewrite (first_message_axfr z0 ser w0 (soa_rr v) a Hw0 Hr0) by (split; reflexivity).
     apply Forall_app in HB. destruct HB as [HB1 HB2].
     destruct (cont_full_surplus wsA (map single) a c2 y x2 wl ws3 tAXFR z0 [] (match ser with Some sv => sv | None => 0 end) v
-                parse_single_ok_glue split_single HhA' Hwl HB1 HB2 Hr) as [n Hn].
+                parse_single_ok_glue split_single HhA' Hwl HB1 HB2 Hr quiet_nil) as [n Hn].
     exists n. exact Hn.
 Qed.
